@@ -13,7 +13,7 @@ From Coq Require Import NArith List Bool.
 From AV Require Import Generated.Table Generated.Locking Spec.Atomicity
   Model.Base Model.Utf8parse Model.Parser Model.Strip Model.Locking Proofs.Locking
   Spec.Io Model.Stream Generated.StreamFn Proofs.StreamGen Generated.AutoFn Proofs.AutoGen
-  Model.Glue Generated.GlueFn Proofs.GlueGen.
+  Model.Glue Generated.GlueFn Proofs.GlueGen Generated.MacrosFn Proofs.MacrosGen.
 Import ListNotations.
 
 (* every modelled call (write, write_vectored, flush, write_all, write_fmt with any
@@ -150,8 +150,8 @@ Theorem c19_translated_ops_lock_once_model :
   end.
 Proof. exact translated_ops_lock_once_model. Qed.
 
-(* StripStream driven directly (anstream::StripStream is public): the four translated methods and the
-   pinned write_vectored *)
+(* StripStream driven directly (anstream::StripStream is public): the five translated methods (write_vectored takes no
+   lock itself and delegates once to `self.write`) *)
 Theorem c19_translated_strip_lock_once :
   forall x,
   (forall buf, gl_ss_write x buf =
@@ -185,3 +185,26 @@ Theorem c19_translated_stdout_lock_once : forall x w',
   let '(x1, g) := g_as_locked_write_stdout x in
   g = lr_w x /\ lr_log (lr_release (set_lr_w x1 w')) = lock_once (lr_log x) (lr_w x) w'.
 Proof. exact translated_stdout_lock_once. Qed.
+
+(* the print macros (crates/anstream/src/_macros.rs, translated arm by arm: Generated/MacrosFn.v).  Outside tests ONE call
+   of print! / println! / eprint! / eprintln! ([mac_arm err nl]) is ONE Write-method call -- write_fmt -- on a stream it
+   has just made over its own std handle and that nobody else holds (first conjunct: the call's whole effect is that
+   operation, and a panic when it fails); that operation, translated over the raw stream that logs its lock events, takes
+   the lock exactly once around all its inner writes (second conjunct: the log grows by lock_once).  Hence one lock
+   acquisition per macro call, and a call's bytes are contiguous in the output (c19_print_bytes_contiguous) *)
+Theorem c19_translated_macro_lock_once :
+  forall lossy fmt_nl (err nl : bool) cfv ch cf (so se : writer) world args log a,
+  g_as_auto cf (if err then se else so) = Some a ->
+  mac_arm lossy fmt_nl err nl false false cfv ch cf so se world args =
+  match g_as_op cf a (OWriteFmt (if nl then fmt_nl args else args)) with
+  | Some (a1, r) =>
+      Some (world ++ MWriteFmt a1 (match r with RErr e => inr e | _ => inl tt end)
+                     :: match r with RErr e => [MPanicIo (if err then mac_msg_stderr else mac_msg_stdout) e] | _ => [] end)
+  | None => None
+  end /\
+  gl_as_op cf (las_with log a) (OWriteFmt (if nl then fmt_nl args else args)) =
+  match g_as_op cf a (OWriteFmt (if nl then fmt_nl args else args)) with
+  | Some (a1, r) => Some (las_with (lock_once log (as_writer a) (as_writer a1)) a1, r)
+  | None => None
+  end.
+Proof. exact translated_macro_lock_once. Qed.
